@@ -17,7 +17,8 @@ TRUSTED = ["Coq 8.16.1 kernel + vm_compute + primitive floats",
            "harness/c03.py (generators; independent reference implementation + exact rational recomputation as direct oracle)"]
 RULE = ("float streams with level shifts / constant runs / several scales; delta in (0,1]; max_buckets in {1,2,3,5}; new_sample_thresh in {1,2,4,32}; "
         "small window / sub-window thresholds so that shrinks happen; both bounds; ADWINAccuracy on label pairs under several encodings with "
-        "non-default constructor arguments. Non-trivial: at least one shrink (drift) in the run; distinct by content.")
+        "non-default constructor arguments. Non-trivial: at least one shrink (drift) in the run; distinct by content."
+        " Also: conservative_bound handed over as np.bool_ / 0 / 1.")
 SHARD = 40
 KEYS = ("delta", "max_buckets", "new_sample_thresh", "window_size_thresh", "subwindow_size_thresh", "conservative_bound")
 
